@@ -121,6 +121,8 @@ fn kv_line(t: &mut Tape, key: &str, class: usize) -> String {
 const FILES: &[&str] = &[
     "\"bg.jpg\"", "bg.png", "\"v.mp4\"", "\"V.AVI\"", "\"a\\\\b.jpg\"", "\"\"", "ab", "\"\u{e9}.jpg\"", "\"x.m4v \"", "\"clip.MoV\"", "\"pic.flv.png\"",
     "\"sub\\dir\\bg.jpg\"", "", "\"a b.jpeg\"", "x.wmv", "\"mpg\"",
+    // names that are non-empty but blank, or padded
+    "\" \"", " ", "\t", "\"\u{3000}\"", "\" bg.jpg\"", " \"bg2.jpg\" ", "\"\t\"",
 ];
 
 fn event_line(t: &mut Tape) -> String {
